@@ -127,9 +127,9 @@ class LineScheduler:
 
     def start(self, fns):
         for i, fn in enumerate(fns):
-            self.state[i] = "running"
-            self.go[i] = False
-        for i, fn in enumerate(fns):
+            with self.cv:
+                self.state[i] = "running"
+                self.go[i] = False
             t = threading.Thread(target=self._worker, args=(i, fn), daemon=True)
             self.threads[i] = t
             t.start()
